@@ -68,7 +68,7 @@ class C07(runner.Check):
             add("CUR", "feature", 3, 4, 3, cost=30)
             add("CUR", "sample", 4, 3, 3, every=2, cost=30)
             add("CUR", "feature", 3, 4, 3, every=3, k=2, cost=30)
-            add("PCovCUR", "sample", 3, 2, 3, p=1, every=2, cost=20)
+            add("PCovCUR", "sample", 3, 2, 2, p=1, every=2, cost=20)  # (3 picks from a rank-2 matrix exhaust the residual on every path: vacuous, removed)
             add("PCovCUR", "sample", 4, 2, 2, p=1, cost=30)
         return cf
 
